@@ -24,12 +24,12 @@ view-volume corner under the traced matrix, after the perspective divide, is the
 whenever the family's divisors (`right-left`, `top-bottom`, `far-near`, `near`, `far`, `aspect·tan`, …)
 are non-zero, and then no division by zero is evaluated at all. -/
 theorem corners_correct {o : Ops K} (ho : FieldLike o) (f : Family) (hf : f ∈ families)
-    (htm : f.treeMode = false) (hk : f.kind = .frac)
+    (htm : f.treeMode = false) (hk : f.kind = .frac) (hdf : f.divFree = false)
     (ks : List Nat) (hks : ks ∈ f.keys) (j : Nat) (hj : j < f.nOut ks) (env : Nat → K)
     (hall : ∀ a ∈ f.allowed ks, a.divOK o env ∧ a.eval o env ≠ 0) :
     (f.post ks (lookup f.unit ks).outE j).divOK o env ∧
     (f.post ks (lookup f.unit ks).outE j).eval o env = (f.spec ks j).eval o env :=
-  Family.frac_sound ho (all_ok f hf) htm hk hks hj env hall
+  Family.frac_sound ho (all_ok f hf) htm hk hdf hks hj env hall
 
 /-- instance: `orthoRH_NO`, near-bottom-left corner `(l, b, -n)` ↦ x = -1 -/
 example : f_ortho.spec [0, 0] 0 = .lit (-1) 1 ∧ f_ortho.spec [0, 0] 2 = .lit (-1) 1 ∧ f_ortho.spec [0, 1] 2 = .lit 0 1
@@ -37,6 +37,16 @@ example : f_ortho.spec [0, 0] 0 = .lit (-1) 1 ∧ f_ortho.spec [0, 0] 2 = .lit (
 
 /-- non-vacuity -/
 example : (lookup "perspective" [0, 0]).nIn = 4 ∧ (lookup "perspective" [0, 0]).outs.length = 16 ∧
-    families.length = 29 ∧ f_ortho_cfg.keys.length = 4 := by decide +kernel
+    families.length = 30 ∧ f_ortho_cfg.keys.length = 4 := by decide +kernel
+
+/-- **`unProject(project(p)) = p`** for every projection matrix of the perspective shape (symbolic entries), identity
+    model matrix and every viewport, under both depth conventions, in every field of characteristic zero — whenever the
+    evaluation divides by zero nowhere -/
+theorem unproject_project {K : Type} [Field K] [CharZero K] {o : Ops K} (ho : FieldLike o)
+    (d : Nat) (hd : [d] ∈ f_unprojP.keys) (j : Nat) (hj : j < 3) (env : Nat → K)
+    (hdiv : ((lookup "unprojP" [d]).outE j).divOK o env) :
+    ((lookup "unprojP" [d]).outE j).eval o env = env j :=
+  Family.frac_divfree_sound ho (all_ok f_unprojP (by simp [families])) rfl rfl (ks := [d]) hd (j := j) hj env hdiv
+    (by intro x hx; simp [f_unprojP, v, E.divisors] at hx)
 
 end Glm.Props.C08
